@@ -166,12 +166,20 @@ func genUnmarshal(tier string, seed uint64) {
 				if len(toks) > 0 && toks[len(toks)-1] == "" {
 					toks = toks[:len(toks)-1]
 				}
-				if len(toks) == 0 || len(toks) > 60 {
+				if len(toks) == 0 || (len(toks) > 60 && !(t.Kind() == reflect.Struct && len(toks) <= 600)) {
 					continue
 				}
 				emit("unmarshal %d %d %s", aid, tid(t), strings.Join(toks, ","))
 				// the same, and its mutations below, also through the stateful model of the unmarshaller
 				emit("unmarshalm %d %d %s", aid, tid(t), strings.Join(toks, ","))
+				if t.Kind() == reflect.Struct && t.NumField() > 8 && len(toks) <= 600 {
+					// wide structs: the same entries rotated and reversed (any order must be taken)
+					for rep := 0; rep < 3; rep++ {
+						if pt := permuteOuter(toks, rep); pt != nil {
+							emit("unmarshal %d %d %s", aid, tid(t), strings.Join(pt, ","))
+						}
+					}
+				}
 				if aid == 3 && t == reflect.TypeOf(Emb{}) {
 					// the key this mapping declares as IGNORED, with values of every shape, at every entry position
 					for _, it := range insertEntries(toks, "s6c6567616379", ignoredValues) {
@@ -227,6 +235,38 @@ func insertEntries(toks []string, key string, values [][]string) [][]string {
 	return out
 }
 
+// permuteOuter: the entries of the outermost map reversed (how=0), rotated by one (1) or by half (2)
+func permuteOuter(toks []string, how int) []string {
+	if len(toks) < 2 || !strings.HasPrefix(toks[0], "{") {
+		return nil
+	}
+	var entries [][]string
+	for i := 1; i < len(toks)-1; {
+		ve := subtreeEnd(toks, i+1)
+		entries = append(entries, toks[i:ve])
+		i = ve
+	}
+	if len(entries) < 2 {
+		return nil
+	}
+	switch how {
+	case 0:
+		for i, j := 0, len(entries)-1; i < j; i, j = i+1, j-1 {
+			entries[i], entries[j] = entries[j], entries[i]
+		}
+	case 1:
+		entries = append(append([][]string{}, entries[1:]...), entries[0])
+	default:
+		k := len(entries) / 2
+		entries = append(append([][]string{}, entries[k:]...), entries[:k]...)
+	}
+	res := []string{toks[0]}
+	for _, e := range entries {
+		res = append(res, e...)
+	}
+	return append(res, toks[len(toks)-1])
+}
+
 // end of the subtree starting at toks[i] (exclusive)
 func subtreeEnd(toks []string, i int) int {
 	depth := 0
@@ -261,7 +301,38 @@ func mutateToks(r *rng, toks []string) []string {
 		}
 	}
 	unknown := []string{"s6e6f7065", "s", "s78", "i4", "0"}
-	switch r.intn(8) {
+	switch r.intn(9) {
+	case 8: // the entries of a map in another order (rotated or reversed): maps and structs take their entries in any order
+		if len(maps) == 0 {
+			return nil
+		}
+		m := maps[r.intn(len(maps))]
+		end := subtreeEnd(toks, m)
+		if end-1 <= m+1 {
+			return nil
+		}
+		var entries [][]string
+		for i := m + 1; i < end-1; {
+			ve := subtreeEnd(toks, i+1)
+			entries = append(entries, toks[i:ve])
+			i = ve
+		}
+		if len(entries) < 2 {
+			return nil
+		}
+		res := append([]string{}, toks[:m+1]...)
+		if r.chance(1, 2) {
+			k := 1 + r.intn(len(entries)-1)
+			entries = append(append([][]string{}, entries[k:]...), entries[:k]...)
+		} else {
+			for i, j := 0, len(entries)-1; i < j; i, j = i+1, j-1 {
+				entries[i], entries[j] = entries[j], entries[i]
+			}
+		}
+		for _, e := range entries {
+			res = append(res, e...)
+		}
+		return append(res, toks[end-1:]...)
 	case 7: // a string token with the case of its letters flipped (or a Unicode case-fold twin: k -> KELVIN SIGN, s -> long s)
 		for try := 0; try < 8; try++ {
 			i := r.intn(len(out))
